@@ -1184,6 +1184,13 @@ class Polygon2D(Base2DIn2D):
         if all(r1 >= 0 for r1 in pt_rels1) and all(r2 <= 0 for r2 in pt_rels2):
             poi = polygon._point_in_polygon(tolerance)
             if self.is_point_inside(poi) == 1:
+                # all vertices are inside or on the edge; check that no edge of the
+                # polygon leaves this one between its vertices (eg. across a notch)
+                off_poly = polygon.offset(tolerance)
+                for seg in self.segments:
+                    for _s in off_poly.segments:
+                        if does_intersection_exist_line2d(seg, _s):
+                            return 0
                 return 1  # definitely inside the polygon
         if 1 in pt_rels1 or 1 in pt_rels2:
             return 0  # definitely overlap in the polygons
